@@ -9,3 +9,4 @@ pub mod specexec;
 pub mod tablets;
 pub mod streams;
 pub mod murmur3;
+pub mod cqlenc;
